@@ -46,15 +46,21 @@ def main(argv):
         sel = [a for a in sel if a != str(n_override)]
     props = sel or PROPS
     bad = 0
+    todo = []
     for prop in props:
-        n = n_override if scale is None else N[prop]
+        if prop == 'C19' and scale is not None:
+            # one range per kind of run-index block: enumerated sweep, random, cold-import sweep
+            todo += [('C19', 0, 40), ('C19', 256, 30), ('C19', 512, 40)]
+        else:
+            todo.append((prop, 0, n_override if scale is None else N[prop]))
+    for prop, first0, n in todo:
         configs = [('w16 hash0', 16, 0), ('w16 hash0 again', 16, 0), ('w1 hash0', 1, 0), ('w16 hash7', 16, 7)]
         if prop in ('C19',):
             configs[2] = ('w3 hash0', 3, 0)
         base = None
         ok = True
         for label, w, hs in configs:
-            rc, d, tail = run(prop, n if w > 1 else max(10, n // 8), w, hs)
+            rc, d, tail = run(prop, n if w > 1 else max(10, n // 8), w, hs, first=first0)
             if d is None or rc == 2:
                 print('%s %-16s HARNESS rc=%s %s' % (prop, label, rc, tail.replace('\n', ' | ')[-300:]))
                 ok = False
@@ -67,12 +73,12 @@ def main(argv):
                 print('%s %-16s NONDETERMINISM at run indices %s' % (prop, label, diff[:10]))
                 ok = False
         # cold process: a handful of single indices, each in a process that runs nothing else
-        for i in (0, n // 2, n - 1):
+        for i in (first0, first0 + n // 2, first0 + n - 1):
             rc, d, tail = run(prop, 1, 1, 0, first=i)
             if d is None or base is None or d.get(str(i)) != base.get(str(i)):
                 print('%s cold index %d differs (%s vs %s)' % (prop, i, d and d.get(str(i)), base and base.get(str(i))))
                 ok = False
-        print('%s determinism: %s (%d indices x %d configurations + 3 cold)' % (prop, 'ok' if ok else 'FAILED', n, len(configs)))
+        print('%s determinism: %s (indices %d..%d x %d configurations + 3 cold)' % (prop, 'ok' if ok else 'FAILED', first0, first0 + n - 1, len(configs)))
         sys.stdout.flush()
         if not ok:
             bad += 1
